@@ -298,6 +298,23 @@ func c04Enum(ctx *ev.Ctx, fn func(*Config, C04Case)) string {
 				}
 			}
 		}
+		// an all-zero AVP header (code 0, no flags, Length 0) behind complete AVPs - alone, repeated
+		// (a zero-filled tail), with well-formed AVPs hidden behind it, and inside a group: Length 0
+		// is shorter than the header, whatever the other bytes are
+		{
+			zero := WRec{Code: 0, Flags: 0, Decl: 0, Tag: "all-zero-header"}
+			for _, a := range mid {
+				emit(c, a, zero)
+				emit(c, a, zero, tail)
+				emit(c, a, a, zero, zero, zero, zero, zero)
+				if len(c.A.Groups) > 0 {
+					emit(c, c.wgroup(0, []WRec{a, zero, tail}), tail)
+					emit(c, c.wgroup(0, []WRec{a}), zero, tail)
+				}
+			}
+			emit(c, zero)
+			emit(c, zero, tail)
+		}
 		// the V flag with a Vendor-Id field of ZERO: the header still has 12 bytes (the flag, not the
 		// value of the field, says whether the field is there). Leaves whose payload looks like an
 		// AVP, and every vendor-less group code carried this way, with members
@@ -597,7 +614,7 @@ func runC04(ctx *ev.Ctx) {
 			ctx.Report("", generalise(what), what+" | case: "+mc.Desc(), mc)
 		}
 	})
-	ctx.Rule += " Every body is read under seven further command-flag bytes of the message header (answer, error answer, proxiable, retransmitted, reserved bits): same verdict and same AVPs. Leaves and vendor-less groups sent with the V flag and a Vendor-Id field of zero (12-byte header), at top level and inside a group. Groups defined by different applications of the message's parent chain (two per application) nested in each other to depth 3 in both directions. The code of every vendor-less Grouped AVP also under a foreign vendor id (a leaf), directly after / before / inside the real group. Wide containers: a grouped AVP behind 0..257 sibling members (counts around 16, 32, 64 and 256), at top level, inside a group and two levels down. Every accepted body is read a second time overlapping with a complete read from another source, after an oversize message. Every top-level record of every accepted body is also decoded with the exported AVP.DecodeFromBytes into ONE AVP value that held a vendor-specific AVP first and then every earlier record, and compared with a fresh decode of the same bytes."
+	ctx.Rule += " An all-zero AVP header (code 0, Length 0) behind complete AVPs, alone / as a zero-filled tail / in front of well-formed AVPs / inside a group. Every body is read under seven further command-flag bytes of the message header (answer, error answer, proxiable, retransmitted, reserved bits): same verdict and same AVPs. Leaves and vendor-less groups sent with the V flag and a Vendor-Id field of zero (12-byte header), at top level and inside a group. Groups defined by different applications of the message's parent chain (two per application) nested in each other to depth 3 in both directions. The code of every vendor-less Grouped AVP also under a foreign vendor id (a leaf), directly after / before / inside the real group. Wide containers: a grouped AVP behind 0..257 sibling members (counts around 16, 32, 64 and 256), at top level, inside a group and two levels down. Every accepted body is read a second time overlapping with a complete read from another source, after an oversize message. Every top-level record of every accepted body is also decoded with the exported AVP.DecodeFromBytes into ONE AVP value that held a vendor-specific AVP first and then every earlier record, and compared with a fresh decode of the same bytes."
 	ctx.Assume = []string{"reference framer (refcodec.Frame) walks by pad4(declared length) only", "a by-Length decoder accepts a sequence iff it accepts each record on its own (used to tell a legitimate value rejection from a framing error)"}
 }
 
